@@ -1,1 +1,380 @@
-fn main(){}
+//! treapsim — deterministic simulation of rlib_treap.
+//!
+//!   treapsim ctl --runs N [--seed S] --out F --replay-dir D     controlled-priority histories
+//!                                                                (C03; heap-order clause of C16)
+//!   treapsim real --history H --n N --mode M --stride K --seed S  one real-priority history in
+//!                                                                this process (C16 height clause)
+//!   treapsim replay FILE        exit 1 iff the recorded run still violates
+//!   treapsim digest --runs N    per-run digests (determinism self-test)
+//!   treapsim hookcheck          is the priority hook of /repo effective?
+
+mod gen;
+mod item;
+mod real;
+mod sim;
+
+use gen::*;
+use sim::*;
+use simcore::par::{par_for, workers_from_env};
+use simcore::{run_seed, Digest, Json, Rng};
+use std::collections::{BTreeMap, HashSet};
+
+const SALT: u64 = 0xC03;
+
+fn arg(args: &[String], name: &str) -> Option<String> {
+    args.iter().position(|a| a == name).and_then(|i| args.get(i + 1)).cloned()
+}
+
+struct Acc {
+    runs: u64,
+    steps: u64,
+    walks: u64,
+    probes: Vec<u64>,
+    by_strategy: Vec<u64>,
+    by_flavour: [u64; 3],
+    states: HashSet<u64>,
+    states_capped: bool,
+    shapes: HashSet<(usize, u32)>,
+    max_height: usize,
+    violations: BTreeMap<String, (u64, Record, Violation)>,
+    violating_runs: u64,
+    samples: Vec<Json>,
+}
+
+const STATE_CAP: usize = 3_000_000;
+
+impl Acc {
+    fn new() -> Acc {
+        Acc {
+            runs: 0,
+            steps: 0,
+            walks: 0,
+            probes: vec![0; PROBES.len()],
+            by_strategy: vec![0; STRATEGIES.len()],
+            by_flavour: [0; 3],
+            states: HashSet::new(),
+            states_capped: false,
+            shapes: HashSet::new(),
+            max_height: 0,
+            violations: BTreeMap::new(),
+            violating_runs: 0,
+            samples: Vec::new(),
+        }
+    }
+}
+
+/// Builds and executes run `idx`: everything derives from the run's seed.
+fn one_run(master: u64, idx: u64, collect_states: bool) -> (Record, ExecOut, usize, Flavour) {
+    let mut rng = Rng::new(run_seed(master ^ SALT, idx));
+    let strat_i = rng.usize_below(STRATEGIES.len());
+    let cfg = gen_cfg(&mut rng);
+    let priorities = gen_priorities(&mut rng, STRATEGIES[strat_i], cfg.ops + 8);
+    let (out, ops) = exec_source(&priorities, &mut |model, step| next_op(&mut rng, &cfg, model, step), collect_states);
+    (Record { priorities, ops }, out, strat_i, cfg.flavour)
+}
+
+fn ctl(master: u64, runs: u64, replay_dir: &str) -> Json {
+    let hook = hook_active();
+    // without the hook only ManualInsert priorities are controlled and the library draws from its
+    // process-wide generator: that must not happen on several threads at once
+    let workers = if hook { workers_from_env() } else { 1 };
+    let t0 = std::time::Instant::now();
+    let accs = par_for(
+        runs,
+        workers,
+        |_| {
+            rlib_treap::verif::set_priority_source(Some(hook_source));
+            Acc::new()
+        },
+        move |acc, idx, cutoff| {
+            let collect = !acc.states_capped;
+            let (rec, out, strat_i, flavour) = one_run(master, idx, collect);
+            acc.runs += 1;
+            acc.steps += out.stats.steps;
+            acc.walks += out.stats.walks;
+            acc.by_strategy[strat_i] += 1;
+            acc.by_flavour[flavour as usize] += 1;
+            for (a, b) in acc.probes.iter_mut().zip(out.stats.probes.iter()) {
+                *a += *b;
+            }
+            acc.max_height = acc.max_height.max(out.stats.max_height);
+            if collect {
+                acc.states.extend(out.stats.state_digests.iter().copied());
+                acc.shapes.extend(out.stats.shapes.iter().copied());
+                if acc.states.len() > STATE_CAP {
+                    acc.states_capped = true;
+                }
+            }
+            if acc.samples.len() < 2 && idx % 13 == 4 && rec.ops.len() <= 10 {
+                acc.samples.push(Json::obj().with("run_index", Json::n(idx as i128)).with("priority_strategy", Json::s(STRATEGIES[strat_i].name())).with("record", rec.to_json()));
+            }
+            if let Some(v) = out.violation {
+                acc.violating_runs += 1;
+                cutoff.lower_to(idx + 4096);
+                let class = v.class();
+                match acc.violations.get(&class) {
+                    Some((i, _, _)) if *i <= idx => {}
+                    _ => {
+                        acc.violations.insert(class, (idx, rec, v));
+                    }
+                }
+            }
+        },
+    );
+    let wall = t0.elapsed().as_secs_f64();
+
+    let mut m = Acc::new();
+    let mut first = u64::MAX;
+    for a in &accs {
+        for (_, (i, _, _)) in &a.violations {
+            first = first.min(*i);
+        }
+    }
+    let horizon = first.saturating_add(4096);
+    for a in accs {
+        m.runs += a.runs;
+        m.steps += a.steps;
+        m.walks += a.walks;
+        for (x, y) in m.probes.iter_mut().zip(a.probes.iter()) {
+            *x += *y;
+        }
+        for (x, y) in m.by_strategy.iter_mut().zip(a.by_strategy.iter()) {
+            *x += *y;
+        }
+        for i in 0..3 {
+            m.by_flavour[i] += a.by_flavour[i];
+        }
+        m.states_capped |= a.states_capped;
+        m.states.extend(a.states);
+        m.shapes.extend(a.shapes);
+        m.max_height = m.max_height.max(a.max_height);
+        m.violating_runs += a.violating_runs;
+        for (c, (i, r, v)) in a.violations {
+            if i > horizon {
+                continue;
+            }
+            match m.violations.get(&c) {
+                Some((j, _, _)) if *j <= i => {}
+                _ => {
+                    m.violations.insert(c, (i, r, v));
+                }
+            }
+        }
+        m.samples.extend(a.samples);
+    }
+    m.samples.sort_by_key(|s| s.num_of("run_index").unwrap_or(0));
+    m.samples.truncate(2);
+
+    rlib_treap::verif::set_priority_source(Some(hook_source));
+    let mut vio = Vec::new();
+    for (class, (idx, rec, v)) in m.violations.iter().take(10) {
+        let (min_rec, evals) = minimise(rec, class, 20_000);
+        let fv = exec(&min_rec, false).violation.unwrap_or_else(|| v.clone());
+        let prop = fv.property();
+        let path = format!("{}/{}-ctl-{}-{}.json", replay_dir, prop, master, idx);
+        let file = Json::obj()
+            .with("property", Json::s(prop))
+            .with("seed", Json::n(master as i128))
+            .with("run_index", Json::n(*idx as i128))
+            .with("violation", fv.to_json())
+            .with("minimiser_evaluations", Json::u(evals))
+            .with("original_size", Json::obj().with("ops", Json::u(rec.ops.len())).with("priorities", Json::u(rec.priorities.len())))
+            .with("record", min_rec.to_json());
+        let written = std::fs::write(&path, file.pretty()).is_ok();
+        vio.push(
+            Json::obj()
+                .with("property", Json::s(prop))
+                .with("class", Json::s(class))
+                .with("run_index", Json::n(*idx as i128))
+                .with("detail", Json::s(&fv.detail))
+                .with("replay", Json::s(&path))
+                .with("replay_written", Json::Bool(written)),
+        );
+    }
+
+    let catalan = [1usize, 2, 5, 14, 42, 132];
+    let shapes_by_n: Vec<Json> = (1..=6)
+        .map(|n| Json::obj().with("n", Json::u(n)).with("reached", Json::u(m.shapes.iter().filter(|(k, _)| *k == n).count())).with("catalan", Json::u(catalan[n - 1])))
+        .collect();
+    let probes = Json::Obj(PROBES.iter().zip(m.probes.iter()).map(|(n, v)| (n.to_string(), Json::n(*v as i128))).collect());
+    let zeros: Vec<Json> = PROBES.iter().zip(m.probes.iter()).filter(|(_, v)| **v == 0).map(|(n, _)| Json::s(n)).collect();
+    Json::obj()
+        .with("engine", Json::s("treapsim-ctl"))
+        .with("seed", Json::n(master as i128))
+        .with("workers", Json::u(workers))
+        .with("hook_active", Json::Bool(hook))
+        .with("runs", Json::n(m.runs as i128))
+        .with("steps", Json::n(m.steps as i128))
+        .with("invariant_walks", Json::n(m.walks as i128))
+        .with("runs_by_priority_strategy", Json::Obj(STRATEGIES.iter().zip(m.by_strategy.iter()).map(|(s, c)| (s.name().to_string(), Json::n(*c as i128))).collect()))
+        .with("runs_by_flavour", Json::obj().with("general", Json::n(m.by_flavour[0] as i128)).with("sorted", Json::n(m.by_flavour[1] as i128)).with("lazy_heavy", Json::n(m.by_flavour[2] as i128)))
+        .with("probes", probes)
+        .with("probes_at_zero", Json::Arr(zeros))
+        .with("distinct_states", Json::u(m.states.len()))
+        .with("distinct_states_capped", Json::Bool(m.states_capped))
+        .with("shapes_reached", Json::Arr(shapes_by_n))
+        .with("max_height_seen", Json::u(m.max_height))
+        .with("violating_runs", Json::n(m.violating_runs as i128))
+        .with("violations", Json::Arr(vio))
+        .with("samples", Json::Arr(m.samples))
+        .with("wall_s", Json::Float(wall))
+}
+
+fn replay(path: &str) -> i32 {
+    let text = match std::fs::read_to_string(path) {
+        Ok(t) => t,
+        Err(e) => {
+            eprintln!("treapsim: cannot read {}: {}", path, e);
+            return 2;
+        }
+    };
+    let j = match Json::parse(&text) {
+        Ok(j) => j,
+        Err(e) => {
+            eprintln!("treapsim: bad replay file: {}", e);
+            return 2;
+        }
+    };
+    let rec_j = j.get("record").unwrap_or(&j);
+    match rec_j.str_of("engine") {
+        Some("treapsim") => {
+            let rec = match Record::from_json(rec_j) {
+                Some(r) => r,
+                None => {
+                    eprintln!("treapsim: malformed record");
+                    return 2;
+                }
+            };
+            if !hook_active() {
+                println!("note: priority hook not effective; only manual priorities are controlled");
+            }
+            rlib_treap::verif::set_priority_source(Some(hook_source));
+            let out = exec(&rec, false);
+            println!("executed {} steps, {} invariant walks, {} priority draws", out.stats.steps, out.stats.walks, out.drawn.len());
+            match out.violation {
+                Some(v) => {
+                    println!("REPLAY-VIOLATION class={} detail={}", v.class(), v.detail);
+                    1
+                }
+                None => {
+                    println!("REPLAY-CLEAN");
+                    0
+                }
+            }
+        }
+        Some("treapsim-real") => {
+            let g = |k: &str| rec_j.num_of(k).unwrap_or(0) as usize;
+            let out = run_real(g("history_index"), g("n"), g("foreign_mode_index"), g("stride"), rec_j.num_of("seed").unwrap_or(0) as u64);
+            println!("final n={} height={} bound={:.1}", out.final_n, out.final_height, out.bound);
+            match out.violation {
+                Some((c, d)) => {
+                    println!("REPLAY-VIOLATION class={} detail={}", c, d);
+                    1
+                }
+                None => {
+                    println!("REPLAY-CLEAN");
+                    0
+                }
+            }
+        }
+        other => {
+            eprintln!("treapsim: not a treapsim record (engine = {:?})", other);
+            2
+        }
+    }
+}
+
+/// Runs one real-priority history on a thread with a very large stack, so that a degenerate
+/// (deep) tree is reported by the height invariant instead of overflowing the stack.
+fn run_real(history: usize, n: usize, mode: usize, stride: usize, seed: u64) -> real::RealOut {
+    std::thread::Builder::new()
+        .stack_size(4 << 30)
+        .spawn(move || real::run_history(history % real::HISTORIES.len(), n, mode % real::STRIDES.len(), stride, seed))
+        .expect("spawn")
+        .join()
+        .expect("real-priority history panicked")
+}
+
+fn main() {
+    let args: Vec<String> = std::env::args().collect();
+    let cmd = args.get(1).map(|s| s.as_str()).unwrap_or("");
+    let code = match cmd {
+        "ctl" => {
+            simcore::silence_panics();
+            let runs: u64 = arg(&args, "--runs").and_then(|s| s.parse().ok()).unwrap_or(1000);
+            let seed: u64 = arg(&args, "--seed").and_then(|s| s.parse().ok()).unwrap_or_else(simcore::verif_seed);
+            let replay_dir = arg(&args, "--replay-dir").unwrap_or_else(|| ".".into());
+            let s = ctl(seed, runs, &replay_dir).pretty();
+            match arg(&args, "--out") {
+                Some(p) => std::fs::write(&p, s).map(|_| 0).unwrap_or(2),
+                None => {
+                    print!("{}", s);
+                    0
+                }
+            }
+        }
+        "real" => {
+            let g = |k: &str, d: usize| arg(&args, k).and_then(|s| s.parse().ok()).unwrap_or(d);
+            let (h, n, mode, stride) = (g("--history", 0), g("--n", 1000), g("--mode", 0), g("--stride", 1));
+            let seed: u64 = arg(&args, "--seed").and_then(|s| s.parse().ok()).unwrap_or(1);
+            let out = run_real(h, n, mode, stride, seed);
+            println!("{}", real::to_json(h % real::HISTORIES.len(), n, mode % real::STRIDES.len(), stride, seed, &out).to_string());
+            0
+        }
+        "replay" => {
+            simcore::silence_panics();
+            match args.get(2) {
+                Some(p) => replay(p),
+                None => 2,
+            }
+        }
+        "digest" => {
+            simcore::silence_panics();
+            let runs: u64 = arg(&args, "--runs").and_then(|s| s.parse().ok()).unwrap_or(1000);
+            let seed: u64 = arg(&args, "--seed").and_then(|s| s.parse().ok()).unwrap_or_else(simcore::verif_seed);
+            if !hook_active() {
+                eprintln!("treapsim: hook not active");
+                std::process::exit(2);
+            }
+            let accs = par_for(
+                runs,
+                workers_from_env(),
+                |_| {
+                    rlib_treap::verif::set_priority_source(Some(hook_source));
+                    Vec::<(u64, u64)>::new()
+                },
+                move |acc, idx, _| {
+                    let (rec, out, _, _) = one_run(seed, idx, true);
+                    let mut d = Digest::new();
+                    d.bytes(rec.to_json().to_string().as_bytes());
+                    for s in &out.stats.state_digests {
+                        d.word(*s);
+                    }
+                    for p in &out.stats.probes {
+                        d.word(*p);
+                    }
+                    for p in &out.drawn {
+                        d.word(*p as u64);
+                    }
+                    d.bytes(out.violation.map(|v| v.class()).unwrap_or_default().as_bytes());
+                    acc.push((idx, d.finish()));
+                },
+            );
+            let mut all: Vec<(u64, u64)> = accs.into_iter().flatten().collect();
+            all.sort_unstable();
+            for (i, d) in all {
+                println!("{} {:016x}", i, d);
+            }
+            0
+        }
+        "hookcheck" => {
+            println!("hook_active={}", hook_active());
+            0
+        }
+        _ => {
+            eprintln!("usage: treapsim ctl|real|replay|digest|hookcheck ...");
+            2
+        }
+    };
+    std::process::exit(code);
+}
